@@ -394,7 +394,20 @@ def T4(ctx):
         # happens_before compares against the *pending thread's* dpor clock
     for (b, t, c) in prog.sites(inst):
         if prog.callee_key(c) == ev["hb"]:
-            if mentions_field(arg_expr(body, t, 1), T, "dpor_vv"):
+            vvf = mentions_field(arg_expr(body, t, 1), T, "dpor_vv")
+            # ... of the thread whose pending operation is being examined: the access compared was looked up for `X.operation`,
+            # the clock must be `X.dpor_vv` for the same X (not the running thread's, which has usually seen the access itself)
+            same = True
+            lda = mentions_call(arg_expr(body, t, 0), ev["lda"])
+            if vvf is not None and lda is not None and len(lda[2]) > 1:
+                opf = mentions_field(lda[2][1], T, "operation")
+                if opf is not None and canon(strip(opf[1])) != canon(strip(vvf[1])):
+                    same = False
+            if vvf is not None and not same:
+                ctx.bad("T4", fn_key, "the last dependent access of one thread's pending operation is compared with another thread's "
+                        "dpor clock (%s): races of the threads that are suspended at an operation are judged absent" % canon(strip(vvf[1]))[:80],
+                        site_str(prog, fn_key, b), detail="hb-arg-thread")
+            elif vvf is not None:
                 ctx.ok("T4", "schedule:hb-arg", "compared with thread.dpor_vv", [site_str(prog, fn_key, b)])
             else:
                 ctx.bad("T4", fn_key, "happens_before is not evaluated against the pending thread's dpor_vv", site_str(prog, fn_key, b), detail="hb-arg")
